@@ -501,6 +501,8 @@ type funcFacts struct {
 	sends    int
 	writes   []string // assignments to package-level variables
 	events   []string // ordered channel sends/receives, goroutine starts and Close() calls (only kept when a channel is involved)
+	indexing []string // run-time-checked accesses: x[i], x[a:b], x.(T) without comma-ok (each can panic)
+	recvw    []string // assignments through a pointer receiver (state kept on a handler / client / reader value)
 }
 
 func (p *pkg) funcFacts(globals map[string]bool) []funcFacts {
@@ -513,6 +515,14 @@ func (p *pkg) funcFacts(globals map[string]bool) []funcFacts {
 			}
 			ff := funcFacts{id: funcID(p, fd)}
 			locals := map[string]bool{}
+			recvName := ""
+			if fd.Recv != nil && len(fd.Recv.List) == 1 && len(fd.Recv.List[0].Names) == 1 {
+				if _, isPtr := fd.Recv.List[0].Type.(*ast.StarExpr); isPtr {
+					recvName = fd.Recv.List[0].Names[0].Name
+				}
+			}
+			safeAssert := map[*ast.TypeAssertExpr]bool{}
+			lhsIndex := map[ast.Expr]bool{}
 			// parameters and receivers shadow globals
 			if fd.Recv != nil {
 				for _, f := range fd.Recv.List {
@@ -580,6 +590,22 @@ func (p *pkg) funcFacts(globals map[string]bool) []funcFacts {
 							}
 						}
 					}
+				case *ast.IndexExpr:
+					if !lhsIndex[x] {
+						ff.indexing = append(ff.indexing, exprString(x))
+					}
+				case *ast.SliceExpr:
+					ff.indexing = append(ff.indexing, exprString(x))
+				case *ast.TypeAssertExpr:
+					if x.Type != nil && !safeAssert[x] {
+						ff.indexing = append(ff.indexing, exprString(x))
+					}
+				case *ast.ValueSpec:
+					if len(x.Names) == 2 && len(x.Values) == 1 {
+						if ta, ok := x.Values[0].(*ast.TypeAssertExpr); ok {
+							safeAssert[ta] = true
+						}
+					}
 				case *ast.GoStmt:
 					ff.gos++
 					ff.events = append(ff.events, "go")
@@ -591,7 +617,39 @@ func (p *pkg) funcFacts(globals map[string]bool) []funcFacts {
 						ff.events = append(ff.events, "recv:"+exprString(x.X))
 					}
 				case *ast.AssignStmt:
+					if len(x.Lhs) == 2 && len(x.Rhs) == 1 {
+						if ta, ok := x.Rhs[0].(*ast.TypeAssertExpr); ok {
+							safeAssert[ta] = true
+						}
+						if ie, ok := x.Rhs[0].(*ast.IndexExpr); ok {
+							lhsIndex[ie] = true // v, ok := m[k]: a map read, cannot panic
+						}
+					}
 					for _, l := range x.Lhs {
+						if recvName != "" && x.Tok != token.DEFINE {
+							r := l
+							depth := 0
+							for {
+								switch y := r.(type) {
+								case *ast.IndexExpr:
+									r = y.X
+									depth++
+									continue
+								case *ast.SelectorExpr:
+									r = y.X
+									depth++
+									continue
+								case *ast.StarExpr:
+									r = y.X
+									depth++
+									continue
+								}
+								break
+							}
+							if id, ok := r.(*ast.Ident); ok && id.Name == recvName && depth > 0 {
+								ff.recvw = append(ff.recvw, exprString(l))
+							}
+						}
 						root := l
 						for {
 							switch y := root.(type) {
@@ -949,6 +1007,41 @@ func main() {
 				ws = append(ws, leanStr(w))
 			}
 			fmt.Fprintf(&f, "(%s, [%s])", leanStr(ff.id), strings.Join(ws, ", "))
+		}
+		f.WriteString("]\n")
+		fmt.Fprintf(&f, "/-- run-time-checked accesses per function: index and slice expressions, type assertions without comma-ok (sorted) -/\ndef %sIndexSites : List (String × List String) := [", pk.name)
+		first = true
+		for _, ff := range facts {
+			if len(ff.indexing) == 0 {
+				continue
+			}
+			if !first {
+				f.WriteString(",")
+			}
+			first = false
+			sort.Strings(ff.indexing)
+			var ws []string
+			for _, w := range ff.indexing {
+				ws = append(ws, leanStr(w))
+			}
+			fmt.Fprintf(&f, "\n  (%s, [%s])", leanStr(ff.id), strings.Join(ws, ", "))
+		}
+		f.WriteString("]\n")
+		fmt.Fprintf(&f, "/-- assignments through a pointer receiver, per method (state kept across calls on a handler, client or reader value) -/\ndef %sReceiverWrites : List (String × List String) := [", pk.name)
+		first = true
+		for _, ff := range facts {
+			if len(ff.recvw) == 0 {
+				continue
+			}
+			if !first {
+				f.WriteString(",")
+			}
+			first = false
+			var ws []string
+			for _, w := range ff.recvw {
+				ws = append(ws, leanStr(w))
+			}
+			fmt.Fprintf(&f, "\n  (%s, [%s])", leanStr(ff.id), strings.Join(ws, ", "))
 		}
 		f.WriteString("]\n\n")
 	}
